@@ -597,14 +597,18 @@ func bufExec(x bufAPI, op *bufOp, e *evw, pool *bufPool) (res *bufResult) {
 		res.rb, res.hasB, res.err = []byte(s), true, "nil"
 		res.tag, res.str = "str", s
 	case "Poke": // not a call of the buffer: the caller stores through a slice it kept
-		e.num("h", op.H)
-		e.num("j", op.J)
-		res.err = "nil"
 		h := pool.get(op.H)
-		if h == nil || h.tag == "str" || op.J < 1 || op.J > len(h.b) {
+		j := op.J
+		if j == -1 && h != nil { // from the model graph: the last byte of the slice
+			j = len(h.b)
+		}
+		e.num("h", op.H)
+		e.num("j", j)
+		res.err = "nil"
+		if h == nil || h.tag == "str" || j < 1 || j > len(h.b) {
 			panic("worker: Poke outside the kept slice")
 		}
-		h.b[op.J-1] = byte(op.N)
+		h.b[j-1] = byte(op.N)
 	case "Fill":
 		e.num("h", op.H)
 		res.err = "nil"
@@ -803,7 +807,8 @@ func (r *bufRunner) step(pc, bb bufAPI, op *bufOp, obs string, last bool, idx in
 		res.write(e)
 		switch obs {
 		case "every":
-			r.observe(x, e, bufSafeLen(x) <= 96 || last || sampled, pool)
+			// (long contents: now and then, more often right after the argument of a write was overwritten)
+			r.observe(x, e, bufSafeLen(x) <= 96 || last || sampled || (res.arg && (bufSafeLen(x) <= 300 || idx%3 == 0)), pool)
 		default:
 			if last || idx%16 == 15 {
 				r.observe(x, e, true, pool)
@@ -1355,7 +1360,11 @@ func (r *bufRunner) runRandom(g *bufGen, rd *bufRandom) {
 			}
 		}()
 		for ; i < steps; i++ {
-			op := g.next(pc, prev, r.pools[0])
+			// sizes are aimed at PrintCtx's thresholds; the caller's stores are chosen from what the
+			// reference handed out, so that the bytes.Buffer log is a legal history whatever
+			// PrintCtx does (a store that does not fit PrintCtx's slice can only follow a result
+			// that was already rejected)
+			op := g.next(pc, prev, r.pools[1])
 			r.step(pc, bb, &op, obs, i == steps-1, i)
 			prev = op.Op
 		}
